@@ -28,20 +28,24 @@ type Profile struct {
 	StartBias   float64 // probability per script step of a start with wrong / changed inputs (`restartg`); > 0 also adds one at the end
 	TinyCache   bool    // block cache of 1..2 entries: (almost) every removal takes the refill path of Chain.RemoveBlock
 	TxHeavy     bool    // every honest block carries transactions (what the transaction lookups answer after removals)
+	Inject      float64 // probability per step (proc / pv / del / till) of a failure injection (inject.go); 0 = no draw at all
+	Sweep       string  // "apply" | "sync" | "delete" | "tie": the history is the failure sweep of that step kind (inject.go)
 }
 
 // Recorder drives a real node and writes the operation lines.
 type Recorder struct {
-	N     *node.Node
-	Rng   *rand.Rand
-	Ops   []string
-	Prof  Profile
-	Tags  map[string]int
-	nonce uint64
-	k     int // tie-break mode: slot of the wall clock
-	oldTx []*blockchain.Transaction
-	saved map[uint32]*blockchain.Block // blocks removed from the chain, by height (for re-application)
-	Err   error
+	N       *node.Node
+	Rng     *rand.Rand
+	Ops     []string
+	Prof    Profile
+	Tags    map[string]int
+	nonce   uint64
+	k       int // tie-break mode: slot of the wall clock
+	oldTx   []*blockchain.Transaction
+	saved   map[uint32]*blockchain.Block // blocks removed from the chain, by height (for re-application)
+	Err     error
+	inj     string // failure injection kind for the next step (inject.go); consumed by the step
+	forceSy bool   // every PV runs with the syncing flag set (sync-apply sweep)
 }
 
 const tieBlockTime = 10_000_000
@@ -240,7 +244,9 @@ func (r *Recorder) Proc(b *blockchain.Block) string {
 	rb, rl := r.flags(b)
 	sv := b.Validate() == nil
 	tipBefore := n.Tip()
+	inj := r.arm()
 	res := n.ProcessResult(b)
+	injTok := r.disarm(inj, res.ForkChoice == "tieBreak")
 	evs := n.DrainEvents()
 	exec := EmptyExec("")
 	old := ""
@@ -277,7 +283,7 @@ func (r *Recorder) Proc(b *blockchain.Block) string {
 		out = "wouldSync"
 	}
 	r.tag("proc:" + out)
-	r.Ops = append(r.Ops, fmt.Sprintf("proc sv=%s valid=%s rb=%s rl=%s %s %s%s", b2s(sv), b2s(valid), b2s(rb), b2s(rl), BlockTokens(b), exec, old))
+	r.Ops = append(r.Ops, fmt.Sprintf("proc sv=%s valid=%s rb=%s rl=%s %s %s%s%s", b2s(sv), b2s(valid), b2s(rb), b2s(rl), BlockTokens(b), exec, old, injTok))
 	return out
 }
 
@@ -299,11 +305,13 @@ func (r *Recorder) PV(b *blockchain.Block, removeTemp bool) bool {
 	tipBefore := n.Tip().Header.ID
 	// half of the blocks are applied with the syncying flag set, as the synchronisers apply them
 	// (Executer.process sets the flag around syncer.Sync, whose processor is processValidated)
-	sy := r.Rng.Intn(2) == 0
+	sy := r.forceSy || r.Rng.Intn(2) == 0
 	if sy {
 		n.Exec.VerifC04SetSyncing(true)
 	}
-	err := n.ProcessValidated(b, removeTemp)
+	inj := r.arm()
+	err := n.ProcessValidatedPublish(b, removeTemp, inj.Publish())
+	injTok := r.disarm(inj, false)
 	if sy && n.Exec != nil {
 		n.Exec.VerifC04SetSyncing(false)
 	}
@@ -315,7 +323,7 @@ func (r *Recorder) PV(b *blockchain.Block, removeTemp bool) bool {
 		r.remember(b)
 	}
 	r.tag("pv:" + b2s(ok))
-	r.Ops = append(r.Ops, fmt.Sprintf("pv valid=%s rt=%s sy=%s %s %s", b2s(ok), b2s(removeTemp), b2s(sy), BlockTokens(b), exec))
+	r.Ops = append(r.Ops, fmt.Sprintf("pv valid=%s rt=%s sy=%s %s %s%s", b2s(ok), b2s(removeTemp), b2s(sy), BlockTokens(b), exec, injTok))
 	return ok
 }
 
@@ -492,9 +500,11 @@ func (r *Recorder) Delete(k int, mode int) {
 			return
 		}
 		tip := n.Tip()
+		inj := r.arm()
 		err := DeleteBlock(n, tip, st)
+		injTok := r.disarm(inj, true)
 		n.DrainEvents()
-		r.Ops = append(r.Ops, "del st="+b2s(st))
+		r.Ops = append(r.Ops, "del st="+b2s(st)+injTok)
 		if err != nil {
 			r.tag("del:refused")
 			break
@@ -596,11 +606,19 @@ func (r *Recorder) till(below bool) {
 	if below && fin > lo {
 		h = uint32(lo + r.Rng.Intn(fin-lo))
 	}
+	r.tillTo(h)
+}
+
+// tillTo runs deleteTillCommonBlock with the block at height h as common block.
+func (r *Recorder) tillTo(h uint32) {
+	n := r.N
+	fin := int(n.Finalized())
 	kind := "fast"
 	if r.Rng.Intn(2) == 0 {
 		kind = "block"
 	}
 	// the same sequence of deleteBlock calls, executed directly
+	inj := r.arm()
 	for n.Tip() != nil && n.Height() != h {
 		tip := n.Tip()
 		if err := DeleteBlock(n, tip, true); err != nil {
@@ -608,6 +626,7 @@ func (r *Recorder) till(below bool) {
 		}
 		r.saved[tip.Header.Height] = tip
 	}
+	injTok := r.disarm(inj, true)
 	n.DrainEvents()
 	r.fixMHG()
 	if int(h) < fin {
@@ -615,7 +634,7 @@ func (r *Recorder) till(below bool) {
 	} else {
 		r.tag("till")
 	}
-	r.Ops = append(r.Ops, fmt.Sprintf("till h=%d kind=%s", h, kind))
+	r.Ops = append(r.Ops, fmt.Sprintf("till h=%d kind=%s%s", h, kind, injTok))
 	// the synchroniser would now apply downloaded blocks; on failure restoreBlocks applies the
 	// temporary blocks again, lowest first, removing the copies
 	if n.Tip() == nil {
@@ -869,6 +888,10 @@ func (r *Recorder) Script() {
 	rng := r.Rng
 	p := r.Prof
 	n := r.N
+	if p.Sweep != "" {
+		r.SweepScript() // inject.go
+		return
+	}
 	if p.Exhaust && n.Cfg.GenesisHeight > 0 {
 		// cache exhaustion within reach of a genesis block above height 0: the refill must clamp to it
 		r.Extend(n.Cfg.MaxBlockCache + rng.Intn(2))
@@ -977,7 +1000,8 @@ func Record(rng *rand.Rand, prof Profile) (ops []string, tag string, err error) 
 	}()
 	var tags []string
 	for _, t := range []string{"proc:tieBreakApplied", "proc:tieBreakReverted", "proc:doubleForging", "cache-exhausted", "validator-change", "dup-tx", "till:below-fin", "restore-temps", "reorg", "reapply", "restart-guards",
-		"restartg:id", "restartg:inside", "restartg:tip", "restartg:above", "restartg:below", "restartg:cfg", "restartg:chainid"} {
+		"restartg:id", "restartg:inside", "restartg:tip", "restartg:above", "restartg:below", "restartg:cfg", "restartg:chainid",
+		"sweep-apply", "sweep-sync", "sweep-delete", "sweep-tie", "inject", "inject-fired", "inject-at-raise"} {
 		if r.Tags[t] > 0 {
 			tags = append(tags, strings.TrimPrefix(t, "proc:"))
 		}
